@@ -532,6 +532,30 @@ class Interp:
         return self.to_ctype(v, ct, from_python=not func.is_cdef)
 
     def call(self, fn, args, kwargs):
+        if isinstance(fn, (SrcFunction, BoundMethod, SrcClass)) or (isinstance(fn, ModelMethod) and not isinstance(fn.obj, (Instance, PyChoice))):
+            # an argument that is a guarded choice between objects: run the call once per alternative, each under its
+            # guard, and merge the results
+            for pos, a in enumerate(args):
+                if isinstance(a, PyChoice):
+                    res = UNSET
+                    for g, alt in reversed(a.alts):
+                        g = simp_bool(g)
+                        if g is False:
+                            continue
+                        if g is not True:
+                            self.guards.append(g)
+                        try:
+                            try:
+                                r = self.call(fn, list(args[:pos]) + [alt] + list(args[pos + 1:]), dict(kwargs))
+                            except _Abort:
+                                r = UNSET
+                        finally:
+                            if g is not True:
+                                self.guards.pop()
+                        res = r if res is UNSET else (res if r is UNSET else ite(g, r, res))
+                    if res is UNSET:
+                        raise _Abort()
+                    return res
         if isinstance(fn, SrcFunction):
             return self.call_function(fn, args, kwargs)
         if isinstance(fn, BoundMethod):
@@ -963,7 +987,13 @@ class Interp:
         if isinstance(obj, MaybeNone):
             raise CannotEncode('attribute of Optional value')
         if isinstance(obj, PyChoice):
-            return ModelMethod(obj, attr)
+            vals = [(g, self.getattr(alt, attr)) for g, alt in obj.alts]
+            if all(isinstance(v, (ModelMethod, BoundMethod)) for _, v in vals):
+                return ModelMethod(obj, attr)
+            res = UNSET
+            for g, v in reversed(vals):
+                res = v if res is UNSET else ite(g, v, res)
+            return res
         if isinstance(obj, Instance):
             if attr in obj.fields:
                 v = obj.fields[attr]
